@@ -597,6 +597,167 @@ Section Cells.
   Qed.
 End Cells.
 
+(* ---- no operand is ever None (convert_cellref always returns a volume id) ---- *)
+Definition is_some {X} (o : option X) : bool := match o with Some _ => true | None => false end.
+
+Definition somespec {X} (f : X -> st -> res (option Z * st)) (x : X) : Prop :=
+  forall s r s', f x s = Ok (r, s') -> nonone (vols s) -> nonone (vols s') /\ r <> None.
+
+Lemma nonone_dset k V d : nonone d -> ops_ok (v_ops V) = true -> nonone (dset k V d).
+Proof.
+  intros Hn Ho k' v Hl. destruct (Z.eq_dec k' k) as [->|Hne].
+  - rewrite lookup_dset_same in Hl. now inversion Hl; subst.
+  - rewrite lookup_dset_other in Hl by assumption. eauto.
+Qed.
+
+Lemma conv_all_some {X} (f : X -> st -> res (option Z * st)) (l : list X) :
+  Forall (somespec f) l ->
+  forall s rs s', conv_all f l s = Ok (rs, s') -> nonone (vols s) ->
+                  nonone (vols s') /\ forallb is_some rs = true.
+Proof.
+  induction 1 as [|x r Hx Hr IH]; intros s rs s' H Hn; simpl in H.
+  - inversion H; subst. auto.
+  - destruct (f x s) as [[y s1]|] eqn:Ef; [|discriminate].
+    destruct (conv_all f r s1) as [[ys s2]|] eqn:Er; [|discriminate].
+    inversion H; subst. destruct (Hx _ _ _ Ef Hn) as [Hn1 Hy].
+    destruct (IH _ _ _ Er Hn1) as [Hn2 Hys]. split; [exact Hn2|]. simpl.
+    destruct y; [exact Hys | congruence].
+Qed.
+
+Lemma ops_ok_mk o ids : forallb is_some ids = true -> ops_ok (mk_ops o ids) = true.
+Proof. destruct ids as [|x r]; simpl; auto. Qed.
+
+Section Some.
+  Variable cref : Z -> st -> res (option Z * st).
+  Variable orig : list (Z * Z).
+  Variables u0 u1 : Z.
+  Hypothesis cref_some : forall c, somespec cref c.
+
+  Lemma crefs_some (l : list Z) : Forall (somespec cref) l.
+  Proof. induction l; constructor; auto. Qed.
+
+  Lemma to_t4_some t : somespec (to_t4 cref orig u0 u1) t.
+  Proof.
+    induction t as [n|c|pid o args IH] using tree_ind2; intros s r s' H Hn.
+    - simpl in H. unfold convert_surface in H.
+      destruct (lookup n (scache s)); [inversion H; subst; split; [assumption | discriminate]|].
+      destruct (conv_equa [n]) as [p m]. inversion H; subst. split; [|discriminate].
+      simpl. now apply nonone_dset.
+    - simpl in H. exact (cref_some c s r s' H Hn).
+    - cbn [to_t4] in H.
+      assert (forall sel s rs s', conv_sel (to_t4 cref orig u0 u1) sel 0 args s = Ok (rs, s') ->
+                nonone (vols s) -> nonone (vols s') /\ forallb is_some rs = true) as Hsel.
+      { intros sel s0 rs s0' Hc. rewrite conv_sel_select in Hc.
+        eapply conv_all_some; [|exact Hc]. now apply Forall_select. }
+      assert (forall s rs s', conv_sel cref (fun _ _ => true) 0 (refs_of args) s = Ok (rs, s') ->
+                nonone (vols s) -> nonone (vols s') /\ forallb is_some rs = true) as Hrefs.
+      { intros s0 rs s0' Hc. rewrite conv_sel_select, select_all in Hc.
+        eapply conv_all_some; [|exact Hc]. apply crefs_some. }
+      destruct o.
+      + destruct (conv_equa (leaves_of args)) as [p m].
+        destruct (conv_sel _ _ 0 args s) as [[ids1 s1]|] eqn:E1; [|discriminate].
+        destruct (conv_sel cref _ 0 (refs_of args) s1) as [[ids2 s2]|] eqn:E2; [|discriminate].
+        inversion H; subst. split; [|discriminate].
+        destruct (Hsel _ _ _ _ E1 Hn) as [N1 S1]. destruct (Hrefs _ _ _ E2 N1) as [N2 S2].
+        simpl. apply nonone_dset; [exact N2|]. simpl. apply ops_ok_mk.
+        now rewrite forallb_app, S1, S2.
+      + destruct (largest args) as [k|].
+        * destruct (conv_sel _ (fun i _ => Nat.eqb i k) 0 args s) as [[ids0 s0]|] eqn:E0; [|discriminate].
+          destruct ids0 as [|[main|] [|? ?]]; try discriminate.
+          destruct (lookup main (vols s0)) as [mv|]; [|discriminate].
+          destruct (conv_sel _ (fun i _ => negb (Nat.eqb i k)) 0 args s0) as [[ids1 s1]|] eqn:E1; [|discriminate].
+          destruct (conv_sel cref _ 0 (refs_of args) s1) as [[ids2 s2]|] eqn:E2; [|discriminate].
+          inversion H; subst. split; [|discriminate].
+          destruct (Hsel _ _ _ _ E0 Hn) as [N0 _]. destruct (Hsel _ _ _ _ E1 N0) as [N1 S1].
+          destruct (Hrefs _ _ _ E2 N1) as [N2 S2].
+          simpl. apply nonone_dset; [exact N2|]. simpl. apply ops_ok_mk.
+          now rewrite forallb_app, S1, S2.
+        * destruct (conv_sel _ _ 0 args s) as [[ids1 s1]|] eqn:E1; [|discriminate].
+          destruct (conv_sel cref _ 0 (refs_of args) s1) as [[ids2 s2]|] eqn:E2; [|discriminate].
+          destruct (conv_equa [u0; - u1]) as [p m]. inversion H; subst. split; [|discriminate].
+          destruct (Hsel _ _ _ _ E1 Hn) as [N1 S1]. destruct (Hrefs _ _ _ E2 N1) as [N2 S2].
+          simpl. apply nonone_dset; [exact N2|]. simpl.
+          rewrite forallb_app. unfold is_some in S1, S2. now rewrite S1, S2.
+  Qed.
+End Some.
+
+Lemma pot_convert_nonone cref matching u0 u1 cl : (forall c, somespec cref c) ->
+  forall s r s', pot_convert cref matching u0 u1 cl s = Ok (r, s') -> nonone (vols s) -> nonone (vols s').
+Proof.
+  intros Hc s r s' H Hn. unfold pot_convert in H. destruct cl as [g orig].
+  destruct (flag g (cnt s)) as [t1 n1]. destruct (expand matching t1 n1) as [[t2 n2]|]; [|discriminate].
+  destruct (optimise t2) as [t3|].
+  - exact (proj1 (to_t4_some cref orig u0 u1 Hc t3 _ _ _ H Hn)).
+  - inversion H; subst. exact Hn.
+Qed.
+
+Lemma convert_cellref_some fuel cells matching u0 u1 : forall c,
+  somespec (convert_cellref fuel cells matching u0 u1) c.
+Proof.
+  induction fuel as [|f IH]; intros c s r s' H Hn; simpl in H.
+  - destruct (lookup c (ccache s)); [inversion H; subst; split; [assumption|discriminate] | discriminate].
+  - destruct (lookup c (ccache s)); [inversion H; subst; split; [assumption|discriminate]|].
+    destruct (lookup c cells) as [cl|]; [|discriminate].
+    destruct (pot_convert _ matching u0 u1 cl s) as [[[id|] s1]|] eqn:Ep; [| |discriminate].
+    + inversion H; subst. split; [|discriminate]. simpl.
+      exact (pot_convert_nonone _ _ _ _ _ IH _ _ _ Ep Hn).
+    + inversion H; subst. split; [|discriminate]. simpl.
+      apply nonone_dset; [exact (pot_convert_nonone _ _ _ _ _ IH _ _ _ Ep Hn) | reflexivity].
+Qed.
+
+Lemma convert_cells_nonone fuel cells matching u0 u1 : forall todo s s',
+  convert_cells fuel cells matching u0 u1 todo s = Ok s' -> nonone (vols s) -> nonone (vols s').
+Proof.
+  induction todo as [|key r IH]; intros s s' H Hn; simpl in H; [inversion H; subst; exact Hn|].
+  destruct (lookup key cells) as [cl|]; [|discriminate].
+  destruct (pot_convert _ matching u0 u1 cl s) as [[[j|] s1]|] eqn:Ep; [| |discriminate].
+  - destruct (lookup j (vols s1)) as [vj|] eqn:Ej; [|discriminate].
+    pose proof (pot_convert_nonone _ _ _ _ _ (convert_cellref_some fuel cells matching u0 u1) _ _ _ Ep Hn) as N1.
+    apply (IH _ _ H). simpl. apply nonone_dset; [exact N1|]. simpl. exact (N1 j vj Ej).
+  - apply (IH _ _ H).
+    exact (pot_convert_nonone _ _ _ _ _ (convert_cellref_some fuel cells matching u0 u1) _ _ _ Ep Hn).
+Qed.
+
+(* pot_to_t4_cell and convert_cellref without the "no None operand" guard *)
+Lemma to_t4_sound_total sigma cden cref orig u0 u1 :
+  0 < u0 -> 0 < u1 -> consistent sigma u0 u1 ->
+  (forall c, fspec sigma cden cref (fun _ => []) cden c) -> (forall c, somespec cref c) ->
+  forall t s r s', leaves_ok nz t -> to_t4 cref orig u0 u1 t s = Ok (r, s') ->
+  inv s -> fresh (ids_of t) s -> nonone (vols s) -> sem sigma cden s ->
+  exists id, r = Some id /\ extends (vols s) (vols s') /\ cnt s <= cnt s' /\ inv s' /\
+             bound (ids_of t) s s' /\ nonone (vols s') /\ sem sigma cden s' /\
+             Vden sigma (vols s') id (tden sigma cden t).
+Proof.
+  intros H0 H1 Hc Hspec Hsome t s r s' Hnz H Hinv Hfr Hnn Hsem.
+  destruct (to_t4_sound sigma cden cref orig u0 u1 H0 H1 Hc Hspec t Hnz s r s' H Hinv Hfr)
+    as (P1 & P2 & P3 & P4 & P5).
+  destruct (to_t4_some cref orig u0 u1 Hsome t s r s' H Hnn) as [N R].
+  destruct (P5 N Hsem) as [Q1 Q2]. destruct r as [id|]; [|congruence].
+  exists id. simpl in Q2.
+  split; [reflexivity|]. split; [exact P1|]. split; [exact P2|]. split; [exact P3|].
+  split; [exact P4|]. split; [exact N|]. split; [exact Q1 | exact Q2].
+Qed.
+
+Lemma convert_cellref_total sigma cden cells matching u0 u1 :
+  0 < u0 -> 0 < u1 -> consistent sigma u0 u1 ->
+  (forall c g orig, lookup c cells = Some (g, orig) ->
+     leaves_ok (msurf_ok matching) g /\ cden c = mden sigma cden matching g) ->
+  forall fuel c s r s', convert_cellref fuel cells matching u0 u1 c s = Ok (r, s') ->
+  inv s -> nonone (vols s) -> sem sigma cden s ->
+  exists id, r = Some id /\ extends (vols s) (vols s') /\ cnt s <= cnt s' /\ inv s' /\
+             bound [] s s' /\ nonone (vols s') /\ sem sigma cden s' /\
+             Vden sigma (vols s') id (cden c).
+Proof.
+  intros H0 H1 Hc Hok fuel c s r s' H Hinv Hnn Hsem.
+  destruct (convert_cellref_spec sigma cden cells matching u0 u1 H0 H1 Hc Hok fuel c s r s' H Hinv
+              (fresh_nil s)) as (P1 & P2 & P3 & P4 & P5).
+  destruct (convert_cellref_some fuel cells matching u0 u1 c s r s' H Hnn) as [N R].
+  destruct (P5 N Hsem) as [Q1 Q2]. destruct r as [id|]; [|congruence].
+  exists id. simpl in Q2.
+  split; [reflexivity|]. split; [exact P1|]. split; [exact P2|]. split; [exact P3|].
+  split; [exact P4|]. split; [exact N|]. split; [exact Q1 | exact Q2].
+Qed.
+
 (* ---- the table after construct_volume_t4's loop, from the empty state ---- *)
 Lemma lookup_In {V} k (v : V) d : lookup k d = Some v -> In (k, v) d.
 Proof.
@@ -649,18 +810,21 @@ Section Top.
   Lemma cells_table fuel todo cnt0 s' :
     NoDup todo -> (forall k, In k todo -> k <= cnt0) ->
     convert_cells fuel cells matching u0 u1 todo (mkSt cnt0 [] [] []) = Ok s' ->
-    no_none (vols s') = true ->
+    nonone (vols s') /\
     (forall k, In k todo -> cell_done sigma cden (vols s') k) /\
     (forall k v, lookup k (vols s') = Some v -> v_fict v = false -> In k todo).
   Proof.
-    intros Hnd Hle H Hnn.
+    intros Hnd Hle H.
+    assert (nonone (vols s')) as Hnn.
+    { apply (convert_cells_nonone _ _ _ _ _ _ _ _ H). intros k v Hl. discriminate. }
+    split; [exact Hnn|].
     assert (inv (mkSt cnt0 [] [] [])) as Hinv by (intros k v Hl; discriminate).
     assert (forall k, In k todo -> lookup k (vols (mkSt cnt0 [] [] [])) = None /\ k <= cnt (mkSt cnt0 [] [] []))
       as Hfr by (intros k Hk; split; [reflexivity | simpl; auto]).
     destruct (convert_cells_sound sigma cden cells matching u0 u1 Hu0 Hu1 Hcons cells_ok
                 fuel todo _ _ H Hinv Hnd Hfr) as (_ & _ & _ & _ & A5 & A6).
     assert (sem sigma cden (mkSt cnt0 [] [] [])) as Hsem by (split; intros ? ? Hl; discriminate).
-    destruct (A6 (no_none_nonone _ Hnn) Hsem) as [_ A7]. split; [exact A7|].
+    destruct (A6 Hnn Hsem) as [_ A7]. split; [exact A7|].
     intros k v Hl Hf. destruct (A5 k v Hl Hf) as [Hq|Hq]; [exact Hq | discriminate].
   Qed.
 
@@ -668,10 +832,9 @@ Section Top.
   Lemma cells_iff fuel todo cnt0 s' :
     NoDup todo -> (forall k, In k todo -> k <= cnt0) ->
     convert_cells fuel cells matching u0 u1 todo (mkSt cnt0 [] [] []) = Ok s' ->
-    no_none (vols s') = true ->
     forall k, in_volume (vols s') k <-> (In k todo /\ cden k = true).
   Proof.
-    intros Hnd Hle H Hnn k. destruct (cells_table fuel todo cnt0 s' Hnd Hle H Hnn) as [A B].
+    intros Hnd Hle H k. destruct (cells_table fuel todo cnt0 s' Hnd Hle H) as (_ & A & B).
     split.
     - intros (v & Hl & Hf & Hv). pose proof (B k v Hl Hf) as Hin. split; [exact Hin|].
       destruct (A k Hin) as [(v' & Hl' & _ & Hv')|[Hn _]]; [|congruence].
@@ -684,13 +847,12 @@ Section Top.
   Lemma partition fuel todo cnt0 s' c :
     NoDup todo -> (forall k, In k todo -> k <= cnt0) ->
     convert_cells fuel cells matching u0 u1 todo (mkSt cnt0 [] [] []) = Ok s' ->
-    no_none (vols s') = true ->
     cden c = true -> (forall c', In c' todo -> cden c' = true -> c' = c) ->
     (In c todo -> forall k, in_volume (vols s') k <-> k = c) /\
     (~ In c todo -> forall k, ~ in_volume (vols s') k).
   Proof.
-    intros Hnd Hle H Hnn Hc Huniq.
-    pose proof (cells_iff fuel todo cnt0 s' Hnd Hle H Hnn) as Hiff. split.
+    intros Hnd Hle H Hc Huniq.
+    pose proof (cells_iff fuel todo cnt0 s' Hnd Hle H) as Hiff. split.
     - intros Hin k. rewrite Hiff. split; [intros [Hk Hd]; auto | intros ->; auto].
     - intros Hnin k Hk. apply Hiff in Hk as [Hk Hd]. apply Hnin. now rewrite <- (Huniq k Hk Hd).
   Qed.
